@@ -22,10 +22,11 @@ from ..colab import (
     lstat_map,
     make_odb,
 )
+from ..lab import RmFaultFS
 from ..world import World, digest_obj, stamp, store_snapshot, walk_files, write_file
 
 PMUTS = ["same", "deleted", "cached", "uncached", "retyped"]
-TARGETS = ["A", "B", "S", "N", "file:x", "from-file"]
+TARGETS = ["A", "B", "S", "N", "file:x", "from-file", "file-file"]
 
 
 def apply_mut(ws, rel, mut, base_content):
@@ -61,11 +62,16 @@ def one_exec(cfg):
         state = State(root_dir=w.root, tmp_dir=w.p("tmp")) if cfg["state"] else None
         try:
             kw = {"state": state} if state is not None else {}
+            # rmfault: one file system object serves the cache and the workspace; removing the corrupt cache
+            # object fails on the first attempt (an immutable file, a shared cache owned by someone else)
+            fs_ = RmFaultFS() if cfg.get("rmfault") else LFS
+            if cfg.get("rmfault"):
+                kw["fs"] = fs_
             odb = make_odb(cfg["kind"], w.p("cache"), type=[cfg["link"]], **kw)
             fill_cache(odb, extra=["z"])
             ws = w.p("ws")
-            if cfg["target"] == "from-file":
-                # prior: a single file at the path; target: a tree (file -> directory)
+            if cfg["target"] in ("from-file", "file-file"):
+                # prior: a single file at the path; target: a tree (file -> directory) or another single file
                 checkout(ws, LFS, load_obj(odb, "x"), odb, force=True, state=state)
                 if cfg["vec"][0] == "uncached":
                     os.unlink(ws)
@@ -73,7 +79,7 @@ def one_exec(cfg):
                 elif cfg["vec"][0] == "cached":
                     os.unlink(ws)
                     write_file(ws, CONTENTS["z"])
-                target = load_obj(odb, "A")
+                target = load_obj(odb, "A" if cfg["target"] == "from-file" else "z")
             else:
                 checkout(ws, LFS, load_obj(odb, "A"), odb, force=True, state=state)
                 for rel, mut in zip(("a", "s/c", "b"), cfg["vec"]):
@@ -99,6 +105,8 @@ def one_exec(cfg):
                     with open(px, "wb") as fh:
                         fh.write(b"bit-rot")
                     stamp(px)
+                    if cfg.get("rmfault"):
+                        fs_.deny = frozenset([px])
             before = walk_files(ws)
             before_l = lstat_map(ws)
             cache_before = {k: v[0] for k, v in store_snapshot(odb.path).items() if isinstance(k, str)}
@@ -115,8 +123,17 @@ def one_exec(cfg):
             if cfg.get("ro"):
                 # the cache is opened read-only for this checkout
                 odb_t = make_odb(cfg["kind"], w.p("cache"), type=[cfg["link"]], read_only=True, **kw)
+            if cfg.get("rmfault"):
+                # first attempt with the removal failing (whatever it raises), then the same call again
+                try:
+                    checkout(ws_arg, fs_, target, odb_t, force=False, relink=cfg["relink"], state=state, prompt=prompt)
+                    info["first"] = "ok"
+                except Exception as e:  # noqa: BLE001
+                    info["first"] = type(e).__name__
+                info["denied"] = fs_.denied
+                fs_.deny = frozenset()
             try:
-                checkout(ws_arg, LFS, target, odb_t, force=False, relink=cfg["relink"], state=state, prompt=prompt)
+                checkout(ws_arg, fs_, target, odb_t, force=False, relink=cfg["relink"], state=state, prompt=prompt)
                 info["outcome"] = "ok"
             except PromptError as e:
                 exc = e
@@ -129,8 +146,13 @@ def one_exec(cfg):
                 # not a refusal the property names, but no claim is made about which error is
                 # raised: only about what happens to the data (checked below)
                 info["outcome"] = type(e).__name__
-            after = walk_files(ws)
-            after_l = lstat_map(ws)
+            if cfg.get("cleanup") and state is not None:
+                # link clean-up right after the call, nothing listed as in use
+                unused = state.get_unused_links([], LFS)
+                state.remove_links(unused, LFS)
+                info["cleaned"] = list(unused)
+            after = walk_files(ws) if os.path.lexists(ws) else {}
+            after_l = lstat_map(ws) if os.path.lexists(ws) else {}
             after_bytes = set(v for v in after.values() if isinstance(v, bytes))
             cache_after = {k: v[0] for k, v in store_snapshot(odb.path).items() if isinstance(k, str)}
             # (1) every byte string lost from the workspace is intact in the cache
@@ -184,9 +206,9 @@ def run_case(case):
             vecs.append(tuple("swapped" if j == i else "deleted" if j == (i + 1) % 3 else "same" for j in range(3)))
     combos = []
     for target in TARGETS:
-        tv = vecs if target != "from-file" else [("same",) * 3, ("cached",) + ("same",) * 2, ("uncached",) + ("same",) * 2]
+        tv = vecs if target not in ("from-file", "file-file") else [("same",) * 3, ("cached",) + ("same",) * 2, ("uncached",) + ("same",) * 2]
         for vec in tv:
-            for untracked in ((False, True) if target != "from-file" else (False,)):
+            for untracked in ((False, True) if target not in ("from-file", "file-file") else (False,)):
                 for relink in (False, True):
                     combos.append((target, vec, untracked, relink, "none"))
     for target in ("A", "B", "S", "N", "file:x"):
@@ -210,12 +232,21 @@ def run_case(case):
         if loss == "none" and target in ("A", "B", "S") and not untracked and not trail and not ro \
                 and ("uncached" in vec or all(m == "same" for m in vec)):
             combos.append((target, vec, untracked, relink, loss, trail, ro, True))
-    for target, vec, untracked, relink, loss, trail, ro, dangling in combos:
+    # recovery: the removal of the corrupt cache object fails during the first attempt and the call is repeated;
+    # and (with a State) link clean-up straight after a call that met uncached user data
+    combos = [c + (False, False) for c in combos]
+    for target, vec, untracked, relink, loss, trail, ro, dangling, _f, _c in list(combos):
+        if loss == "corrupt-x" and not ro:
+            combos.append((target, vec, untracked, relink, loss, trail, ro, dangling, True, False))
+        if loss == "none" and base["state"] and not trail and not dangling and "uncached" in vec:
+            combos.append((target, vec, untracked, relink, loss, trail, ro, dangling, False, True))
+    for target, vec, untracked, relink, loss, trail, ro, dangling, rmfault, cleanup in combos:
         if True:
             if True:
                 if True:
                     cfg = dict(base, target=target, vec=list(vec), untracked=untracked, relink=relink,
-                               cacheloss=loss, trail=trail, ro=ro, dangling=dangling)
+                               cacheloss=loss, trail=trail, ro=ro, dangling=dangling, rmfault=rmfault,
+                               cleanup=cleanup)
                     if dangling:
                         res["vac"]["dangling_link_runs"] = res["vac"].get("dangling_link_runs", 0) + 1
                     if trail:
@@ -223,6 +254,10 @@ def run_case(case):
                     if ro:
                         res["vac"]["read_only_cache_runs"] = res["vac"].get("read_only_cache_runs", 0) + 1
                     viol, info = one_exec(cfg)
+                    if rmfault and info.get("denied"):
+                        res["vac"]["failed_removal_retries"] = res["vac"].get("failed_removal_retries", 0) + 1
+                    if cleanup:
+                        res["vac"]["cleanups_after_checkout"] = res["vac"].get("cleanups_after_checkout", 0) + 1
                     res["n"] += 1
                     res["trans"] += 2
                     d = digest_obj(cfg)
@@ -239,12 +274,16 @@ def run_case(case):
                         res["vac"]["refusals"] += 1
                     if info["outcome"] == "ok":
                         res["vac"]["completed"] += 1
-                    if target in ("file:x", "from-file"):
+                    if target in ("file:x", "from-file", "file-file"):
                         res["vac"]["kind_change_runs"] += 1
                     res["outcomes"].add(repr((info["outcome"], sorted(v[0] for v in viol))))
                     for sig, detail in viol:
                         if dangling:
                             sig = sig + "/dangling-link-in-workspace"
+                        if rmfault:
+                            sig = sig + "/retry-after-failed-removal"
+                        if cleanup:
+                            sig = sig + "/clean-up-after-the-call"
                         if sig not in sigs:
                             sigs.add(sig)
                             res["viol"].append((sig, detail, dict(cfg, part="checkout")))
@@ -258,7 +297,7 @@ def run_case(case):
 
 LOPS = [("save", "p1"), ("save", "p2"), ("mod", "p1"), ("repl", "p1"), ("rm", "p1"), ("touch", "p1"),
         ("edit-inner", "p2"), ("edit-inner-u", "p2"), ("edit-inner-v", "p2"), ("add-inner", "p2"),
-        ("rename-inner", "p2"), ("add-inner-mtime0", "p2"),
+        ("rename-inner", "p2"), ("add-inner-mtime0", "p2"), ("add-inner-loop", "p2"),
         ("clean", ""), ("clean", "p1"), ("clean", "p2")]
 
 
@@ -267,6 +306,7 @@ def run_links(hist, trail=False):
 
     viol = []
     removed_total = 0
+    refused = 0
 
     def wf(path, data):
         # user edits land within the same second as the recording (1 microsecond logical clock)
@@ -288,8 +328,11 @@ def run_links(hist, trail=False):
                 k, name = op
                 if k == "save":
                     if os.path.lexists(p[name]):
-                        state.save_link(p[name], LFS)
-                        recorded[name] = False
+                        try:
+                            state.save_link(p[name], LFS)
+                            recorded[name] = False
+                        except OSError:
+                            pass   # recording refused (an entry cannot be examined): the earlier record stands
                 elif k == "mod":
                     if os.path.exists(p["p1"]):
                         wf(p["p1"], b"user-modified-%d" % i)
@@ -336,6 +379,13 @@ def run_links(hist, trail=False):
                         os.utime(f0, ns=(0, 0))
                         if "p2" in recorded:
                             recorded["p2"] = True
+                elif k == "add-inner-loop":
+                    # the user leaves a symbolic link that points at itself (stat fails with ELOOP) next to
+                    # a new file of theirs
+                    if os.path.isdir(p["p2"]):
+                        os.symlink(f"loop{i}", os.path.join(p["p2"], f"loop{i}"))
+                        if "p2" in recorded:
+                            recorded["p2"] = True
                 elif k == "rename-inner":
                     f = os.path.join(p["p2"], "in2")
                     if os.path.exists(f):
@@ -346,7 +396,12 @@ def run_links(hist, trail=False):
                     used = [p[name]] if name else []
                     before = {n: os.path.lexists(pp) for n, pp in p.items()}
                     before_files = walk_files(root)
-                    unused = state.get_unused_links(used, LFS)
+                    try:
+                        unused = state.get_unused_links(used, LFS)
+                    except OSError:
+                        # clean-up refuses (an entry cannot be examined): nothing may have been removed
+                        unused = []
+                        refused += 1
                     state.remove_links(unused, LFS)
                     for n, pp in p.items():
                         if before[n] and not os.path.lexists(pp):
@@ -368,7 +423,7 @@ def run_links(hist, trail=False):
                             viol.append(("clean-up-removed-unrelated-path", rel))
         finally:
             state.close()
-    return viol, removed_total
+    return viol, removed_total, refused
 
 
 def links_case(case):
@@ -380,10 +435,11 @@ def links_case(case):
         hist = pre + list(rest)
         if not any(o[0] == "clean" for o in hist):
             continue
-        viol, removed = run_links(hist)
+        viol, removed, refused = run_links(hist)
+        res["vac"]["cleanups_refused"] = res["vac"].get("cleanups_refused", 0) + refused
         if hist[-1][0] == "clean" and hist[-1][1]:
             # the same history with the State's root directory spelled with a trailing separator
-            v2, r2 = run_links(hist, trail=True)
+            v2, r2, _rf = run_links(hist, trail=True)
             viol = list(viol) + [(s_ + "/root-with-trailing-separator", d_) for s_, d_ in v2]
             res["n"] += 1
             res["vac"]["trailing_root_histories"] = res["vac"].get("trailing_root_histories", 0) + 1
@@ -554,7 +610,9 @@ def replay(case):
         return run_inflight(case["cfg"], case["at"])[0]
     cfg = {k: v for k, v in case.items() if k != "part"}
     v = one_exec(cfg)[0]
-    return [(s_ + "/dangling-link-in-workspace", d_) for s_, d_ in v] if cfg.get("dangling") else v
+    suf = "".join(x for k, x in (("dangling", "/dangling-link-in-workspace"), ("rmfault", "/retry-after-failed-removal"),
+                                 ("cleanup", "/clean-up-after-the-call")) if cfg.get(k))
+    return [(s_ + suf, d_) for s_, d_ in v]
 
 
 def run(ctx):
@@ -563,7 +621,7 @@ def run(ctx):
     ctx.rule = (
         f"E2: tree A checked out, then every mutation vector over {npaths} paths x {{untouched, deleted, edited to "
         "cached content, edited to uncached content, re-typed copy}} (+ untracked file on/off; + the cache losing / corrupting an object after the first checkout verified it) x target {same, other "
-        "tree, subset, disjoint tree, directory->single file, single file->directory} x both store classes x link "
+        "tree, subset, disjoint tree, directory->single file, single file->directory, single file->another single file} x both store classes x link "
         "type {copy, hardlink, symlink} x relink x prompt {absent, declining} x state on/off, force off; link "
         f"clean-up: every history of length {depth} over {len(LOPS)} operations (record, modify, touch, replace, "
         "remove, edit/add/rename inside a tracked directory, clean-up with each used list) containing a clean-up; "
@@ -583,7 +641,8 @@ def run(ctx):
     ]
     ctx.require("refusals", "uncached_vectors", "completed", "kind_change_runs", "cache_loss_runs", "cleanups_that_removed",
                 "link_histories", "swapped_vectors", "inflight_edits", "trailing_separator_runs", "read_only_cache_runs",
-                "trailing_root_histories", "dangling_link_runs")
+                "trailing_root_histories", "dangling_link_runs", "failed_removal_retries", "cleanups_after_checkout",
+                "cleanups_refused")
     cs = []
     for kind in ("local", "base"):
         for link in ("copy", "hardlink", "symlink"):
